@@ -28,8 +28,10 @@ def make_vectorizable(func: callable, backend: str):
     module = _module_from_backend(backend)
     tree = _make_vectorizable_ast(func, module=module)
 
-    # recreate scope of function and add array library
-    scope = func.__globals__
+    # recreate scope of function and add array library. Work on a copy of the function's
+    # globals: executing the new definition must not rebind the original function (or
+    # inject the array library) in the module that defines it.
+    scope = dict(func.__globals__)
     scope[module] = import_module(module)
 
     # execute new ast
